@@ -346,12 +346,15 @@ def check_call(case, rec):
         d = _positive_field(rs, n)
         if case["flag"] & 1:
             d[0] = np.nan
+        if case["flag"] & 2:
+            # values outside the domain / image of some of the normalizers (documented: they are treated as NaN, with a warning)
+            d[1], d[2] = -0.3, -7.5
         data = A("data", d)
         for nm in nms:
             for meth in ("normalize", "denormalize", "derivative", "loglikelihood", "kernel_loglikelihood", "likelihood"):
                 _call(getattr(nm, meth), data, _tags=tags)
                 sn.verify(f"{nm.name}.{meth}")
-            if not (case["flag"] & 1) and nm.name != "LogNormal":
+            if not (case["flag"] & 3) and nm.name != "LogNormal":
                 _call(nm.fit, data, skip=["shift"] if nm.name == "BoxCoxShift" else None, _tags=tags)
                 sn.verify(f"{nm.name}.fit")
     elif entry == "mean_norm_trend":
